@@ -26,7 +26,8 @@ RULE = ("generated host trees (depth <= 4, <= 40 entries, file sizes 0 to severa
         "mounts (files, directories, missing paths, the mount's `path` subtree), mount points beneath the output "
         "path; 0-2 read-only collection mounts with generated manifests (1-3 streams, 0-3 blocks, files spanning "
         "blocks, zero-length files, repeated file tokens, empty-directory markers, escaped names), 0-2 secret "
-        "mounts (inside and outside the output path); plus irregular link targets (absolute targets that are not "
+        "mounts (inside and outside the output path); directories that leave five or more blocks to commit when the "
+        "copier moves on to another directory (6 % of the trees); plus irregular link targets (absolute targets that are not "
         "path-cleaned, targets that pass through a symlinked directory), FIFOs, unsupported mount kinds, unknown "
         "portable data hashes, excluded mounts, and a few malformed lines. A case is non-trivial when the tree "
         "has a symlink, a mount beneath the output path, a secret, or a file larger than one block; distinct = "
@@ -505,6 +506,8 @@ def oracle(case, impl):
         return None        # the driver could not build the tree (ill-formed case line): not an output of Copy
     if impl == "diverge":
         return "links were followed without end (the plan grew beyond every bound until the watchdog stopped the copy)"
+    if impl == "hang":
+        return "copy did not return (no output collection is saved): blocked for more than 20 s on a tree that copies in milliseconds"
     if impl.startswith(("panic", "CRASH", "reload-error", "bad-op")):
         return "copy did not end with a manifest or an error: " + impl[:200]
     if unsupported_config(c):
@@ -991,6 +994,24 @@ class Gen:
                 self.add(("n%d" % i, "l"), "l", "../n%d" % (i + 1))
         self.add(("nstart",), "l", "n0")
 
+    def manyblocks(self):
+        """a directory that still has five or more blocks to commit when the copier leaves it for another one:
+        files between half a block and a block (each committed on its own) or many small files (packed)"""
+        r, bs = self.rng, self.bs
+        d = ("aa0",)
+        if d in self.kinds:
+            return
+        self.add(d, "d")
+        if r.random() < 0.6:
+            for i in range(r.randint(5, 8)):
+                self.add(d + ("big%d" % i,), "f", (self.fresh_seed(), r.randint(bs // 2 + 1, max(bs // 2 + 1, bs - 1))))
+        else:
+            small = max(1, bs // 4)
+            for i in range(min(30, 5 * bs // small + r.randint(2, 6))):
+                self.add(d + ("s%02d" % i,), "f", (self.fresh_seed(), small))
+        self.add(("zz9",), "d")
+        self.add(("zz9", "after"), "f", (self.fresh_seed(), 3))
+
     def line(self):
         out = "h1/h2/o"
         hs = []
@@ -1025,6 +1046,8 @@ def gen_case(rng, profile):
         g.chain()
     elif x < 0.09:
         g.nest()
+    elif x < 0.15:
+        g.manyblocks()
     g.extras()
     g.fill_links()
     return g.line()
